@@ -84,7 +84,7 @@ claimed = {
         "superset of the items it is given (closed: every needed (r,0) is present; justified: every added item is needed by an item of the set; the given items are kept; "
         "representation invariant kept) and leaves it sorted by (rule, dot), which is what makes the position-wise comparison of CheckIsExist a set comparison. "
         "Also under this property: drawing a state (StateGraphNode, -g) lists all its items and leaves the automaton's item lists alone; and the lexer's action scanner ends an action exactly where the "
-        "brace depth of the text read so far returns to 0 (every rune counted), so no rule is swallowed into an action.",
+        "brace depth of the text read so far returns to 0 (every rune counted), so no rule is swallowed into an action; BuildTrans loses no transition of the collection.",
    note=TB + "Assumed: sort.SliceStable yields a permutation ordered by its less function. Local steps of the worklist are proved too: state 0 is the closure of the start item and the only state when the worklist starts (BuildLALR1); in "
         "ComputeGotoItemNoneRec an item with X after the dot contributes exactly its advanced item (same rule, dot+1) to the target on X, a new goto entry is created on exactly that X, "
         "and every pending target is resolved to the index of a state with exactly its item list (an existing one, else itself appended). NOT proved as a whole: the worklist orchestration ComputeGotoItemNoneRec / ComputeAllGoto "
@@ -98,12 +98,13 @@ claimed = {
         "finds a transition iff one exists. The check found that both relations ignored the path condition (SLR-like lookaheads), now fixed. Both relations are also proved COMPLETE (every pair that satisfies the condition is in the "
         "result; lemma WALKNEG by induction: a failed walk stays failed), the direct-read sets are proved exact (DR(p,A) = terminals shiftable after (p,A), keyed by exactly the "
         "nonterminal transitions, each entry with its own array - Digraph writes into them), and BuildTrans is proved to list exactly the goto edges and complete items of the "
-        "automaton. The composition (Digraph/Traverse, reads) and the exactness of the final lookahead sets are covered by a BOUNDED stand-in that compares every lookahead "
+        "automaton; the reads relation of one transition is exact (calcReadsRelation) and the lists handed to the two digraphs are the WHOLE reads / includes relations over the nonterminal transitions "
+        "(CalcAllReadRelations: sound and complete; CaclIncludes: complete), the wiring of the digraph calls is pinned. The composition (Digraph/Traverse) and the exactness of the final lookahead sets are covered by a BOUNDED stand-in that compares every lookahead "
         "set with the LALR(1) set obtained by merging canonical LR(1) states, on fixed and pseudo-random grammars.",
    note=TB + "Proved: soundness AND completeness of lookback / includes, walk, fetchTransIndex, seqenceCanEpsilon, fetchReduceTransistor (exact), CalcDR, fetchOneDr, BuildTrans. "
         "Axioms STEP/WALK0/WALKS define spec_step/spec_walk over the transition list (consistent under the determinism clause of wfTrans). NOT proved deductively "
-        "(bounded stand-in, <= 3 nonterminals, <= 3 terminals, <= 5 rules, 400 grammars quick / 20000 thorough + 9 fixed): the reads relation, "
-        "Digraph/Traverse, CalcLookAheadSet, and the DeRemer-Pennello theorem itself (literature). The conflict-warning part of C03 rests on CheckAndResolveConflict's "
+        "(bounded stand-in, <= 3 nonterminals, <= 3 terminals, <= 5 rules, 400 grammars quick / 20000 thorough + 9 fixed): "
+        "Digraph/Traverse (only local steps are under contract), CalcLookAheadSet, and the DeRemer-Pennello theorem itself (literature). The conflict-warning part of C03 rests on CheckAndResolveConflict's "
         "contract (C04). wfTrans (shape of the transition list) is a precondition of the relation builders; BuildTrans proves its entry-by-entry part.",
    design="§5 C03, Appendix A.4", technique="contract-based deductive verification of the relation builders + bounded run-time contract evaluation for Digraph"),
  "C11": dict(
